@@ -2,6 +2,9 @@ import Gallia.Model.Randomize
 import Gallia.Proofs.Lemmas.Randomize
 import Gallia.Proofs.Lemmas.RandomizeDict
 import Gallia.Proofs.Lemmas.RandomizeSpec
+import Gallia.Proofs.Lemmas.PySet
+import Gallia.Proofs.Lemmas.RandomizePy
+import Gallia.Proofs.Lemmas.RandomizePrefix
 import Gallia.Gen.C16Tables
 /-
   C16 — a random virtual ECU is fully determined by its seed and arguments; its model is well-formed.
@@ -147,6 +150,184 @@ theorem randomizeCore_wellFormed (p : Params) (hp : ParamsWF p) (hd : 0x10 ∈ p
     returns := returns_to_default isoTables_wf hd hp
     dsc_sessions := fun a b ⟨sm, l, hm, hl, hb⟩ => dsc_subfns_are_sessions isoTables_wf hp a sm l b hm hl hb }
 
+/-! ### the model as a function of (arguments, draws, choices) alone: CPython's set order is computed, not given
+
+  `randomize` (Model/Randomize.lean) keeps `level_sessions` / `next_level_sessions` as `PySet`s - an executable model
+  of CPython 3.12's set for ints (Model/PySet.lean) - and walks them in table order, as the `for` loops of the code
+  do.  What this buys: the order oracle of `randomizeCore` was a *hidden input* (read from the running interpreter);
+  `randomize` has none.  Whatever the interpreter process, hash seed or time - these are not arguments of the
+  function - the model is the value of `randomize` at the arguments, the draw stream and the choice stream, and the
+  streams are those of `random.Random(str(seed))`. -/
+
+open Gallia.PySet (PySet hashModulus)
+
+/-- `randomize` is the oracle model at the order oracle that replays the PySet run: every theorem for all oracles
+    applies to it -/
+theorem randomize_is_instance (p : Params) (hp : ParamsWF p) (draws : Nat → Bool) (choice : Nat → Nat) :
+    randomize p draws choice = randomizeCore p draws choice (pyOrder p draws choice) :=
+  (randomizePyGen_eq isoTables p hp (fun i _ => draws i) choice).1
+
+/-- the same for the counters: the PySet run consumes exactly the draws and choices of the oracle run -/
+theorem randomize_counters (tb : Tables) (p : Params) (hp : ParamsWF p) (draw : Nat → Thr → Bool) (choice : Nat → Nat) :
+    (randomizePyGen tb p draw choice).draws = (randomizeGen tb p (pyOracles tb p draw choice)).draws ∧
+    (randomizePyGen tb p draw choice).choices = (randomizeGen tb p (pyOracles tb p draw choice)).choices ∧
+    (randomizePyGen tb p draw choice).levels = (randomizeGen tb p (pyOracles tb p draw choice)).levels :=
+  (randomizePyGen_eq tb p hp draw choice).2
+
+/-- for all seeds (draw streams, choice streams) - and no other input: the model of the virtual ECU is well-formed -/
+theorem randomize_wellFormed (p : Params) (hp : ParamsWF p) (hd : 0x10 ∈ p.mandatoryServices)
+    (draws : Nat → Bool) (choice : Nat → Nat) : WellFormed p (randomize p draws choice) := by
+  rw [randomize_is_instance p hp]
+  exact randomizeCore_wellFormed p hp hd draws choice _
+
+/-- the result of `randomize` is a well-formed dict of dicts -/
+theorem randomize_is_dict (p : Params) (hp : ParamsWF p) (draws : Nat → Bool) (choice : Nat → Nat) :
+    ((randomize p draws choice).map (·.1)).Pairwise (· < ·) ∧
+    ∀ s sm, (s, sm) ∈ randomize p draws choice → (sm.map (·.1)).Nodup := by
+  rw [randomize_is_instance p hp]
+  have := model_is_dict (tb := isoTables) (p := p)
+    (o := { draw := fun i _ => draws i, choice := choice, order := pyOrder p draws choice }) isoTables_wf
+  exact ⟨this.1, fun s sm h => (this.2 s sm h).1⟩
+
+/-- determinism: the model is a function of the arguments, the Boolean draw stream and the choice stream; two runs
+    that see pointwise equal streams (two processes seeding `random.Random` with the same string) yield the same
+    model.  There is no further argument a hash seed, an import order or a clock could enter through. -/
+theorem determinism (p p' : Params) (draws draws' : Nat → Bool) (choice choice' : Nat → Nat) (hp : p = p')
+    (hd : ∀ i, draws i = draws' i) (hc : ∀ k, choice k = choice' k) :
+    randomize p draws choice = randomize p' draws' choice' ∧ pyOrder p draws choice = pyOrder p' draws' choice' := by
+  have e1 : draws = draws' := funext hd
+  have e2 : choice = choice' := funext hc
+  subst hp e1 e2
+  exact ⟨rfl, rfl⟩
+
+/-- finite dependence: the run reads the draw stream only below the number of draws it reports and the choice stream
+    only below the number of choices it reports.  Two generators whose streams agree on that prefix - at every call
+    site, whatever they return afterwards - produce the same model, the same counters and the same set orders.  The
+    recorded-draw replay of the harness feeds exactly this prefix, so it determines the model completely. -/
+theorem determinism_prefix (tb : Tables) (p : Params) (draw draw' : Nat → Thr → Bool) (choice choice' : Nat → Nat)
+    (hd : ∀ i, i < (randomizePyGen tb p draw choice).draws → ∀ k, draw i k = draw' i k)
+    (hc : ∀ j, j < (randomizePyGen tb p draw choice).choices → choice j = choice' j) :
+    randomizePyGen tb p draw' choice' = randomizePyGen tb p draw choice :=
+  randomizePyGen_prefix tb p draw draw' choice choice' hd hc
+
+/-- ... and the oracle model reproduces it from *any* order oracle that tells the truth about CPython's sets: the
+    recorded-order replay of the harness and the order-free replay must agree -/
+theorem determinism_order_oracle (p : Params) (hp : ParamsWF p) (draws : Nat → Bool) (choice : Nat → Nat)
+    (order : Nat → List Nat) (h : ∀ level, order level = pyOrder p draws choice level) :
+    randomizeCore p draws choice order = randomize p draws choice := by
+  rw [randomize_is_instance p hp, show order = pyOrder p draws choice from funext h]
+
+/-! ### CPython's set (Model/PySet.lean) against the mathematical set -/
+
+section pyset
+open Gallia.PySet
+
+/-- sets built by the modelled operations from ints below `2^61 - 1` (where `hash(n) = n`) -/
+inductive Built : PySet → Prop
+  | empty : Built PySet.empty
+  | add {s x} : Built s → x < hashModulus → Built (PySet.add s x)
+  | discard {s x} : Built s → x < hashModulus → Built (PySet.discard s x)
+  | update {s xs} : Built s → (∀ x ∈ xs, x < hashModulus) → Built (PySet.update s xs)
+  | ofList {xs} : (∀ x ∈ xs, x < hashModulus) → Built (PySet.ofList xs)
+  | merge {a b} : Built a → Built b → Built (PySet.merge a b)
+  | copy {s} : Built s → Built (PySet.copy s)
+  | union {a b} : Built a → Built b → Built (PySet.union a b)
+  | difference {a b} : Built a → Built b → Built (PySet.difference a b)
+  | differenceUpdate {a b} : Built a → Built b → Built (PySet.differenceUpdate a b)
+  | resize {s m} : Built s → 2 * s.used ≤ m → Built (PySet.resize s m)
+
+/-- table invariant by induction over any sequence of operations -/
+theorem pyset_invariant {s : PySet} (h : Built s) : PySet.WF s := by
+  induction h with
+  | empty => exact wf_empty
+  | add _ hx ih => exact add_wf ih hx
+  | discard _ hx ih => exact discard_wf ih hx
+  | update _ hx ih => exact (update_spec _ ih hx).1
+  | ofList hx => exact (ofList_spec hx).1
+  | merge _ _ iha ihb => exact (merge_spec iha ihb).1
+  | copy _ ih => exact (copy_spec ih).1
+  | union _ _ iha ihb => exact (union_spec iha ihb).1
+  | difference _ _ iha ihb => exact (difference_spec iha ihb).1
+  | differenceUpdate _ _ iha ihb => exact (differenceUpdate_spec iha ihb).1
+  | resize _ hm ih => exact (resize_wf ih.wf0 (extra := 0) (by simpa using hm)).1
+
+/-- what the invariant says in terms of the C fields: the table has `2^k >= 8` entries, `used <= fill`, the load factor
+    is below 3/5 (so an unused entry always exists and probing terminates), `len(s)` is the number of elements iterated -/
+theorem pyset_load_factor {s : PySet} (h : Built s) :
+    (∃ k, 3 ≤ k ∧ s.table.size = 2 ^ k) ∧ s.used ≤ s.fill ∧ s.fill * 5 < (s.table.size - 1) * 3 ∧
+      (PySet.toList s).length = s.used ∧ ∃ j, j < s.table.size ∧ slotAt s.table j = .empty := by
+  have w := pyset_invariant h
+  refine ⟨w.table.pow, ?_, w.load, w.length_toList, w.exists_empty⟩
+  rw [w.fill_eq, w.used_eq]
+  apply List.countP_mono_left
+  intro a _ ha; cases a <;> simp_all [isKey, nonEmpty]
+
+/-- the iteration order lists every element exactly once … -/
+theorem toList_nodup {s : PySet} (h : Built s) : (PySet.toList s).Nodup := (pyset_invariant h).toList_nodup
+
+/-- … and `x in s` is membership in it: `list(s)` is a permutation of the elements -/
+theorem mem_toList_iff {s : PySet} (h : Built s) {x : Nat} (hx : x < hashModulus) :
+    x ∈ PySet.toList s ↔ PySet.contains s x = true := (contains_iff (pyset_invariant h) hx).symm
+
+theorem pyset_add_law {s : PySet} (h : Built s) {x : Nat} (hx : x < hashModulus) (y : Nat) :
+    y ∈ PySet.toList (PySet.add s x) ↔ y = x ∨ y ∈ PySet.toList s := mem_add (pyset_invariant h) hx
+
+theorem pyset_discard_law {s : PySet} (h : Built s) {x : Nat} (hx : x < hashModulus) (y : Nat) :
+    y ∈ PySet.toList (PySet.discard s x) ↔ y ≠ x ∧ y ∈ PySet.toList s := mem_discard (pyset_invariant h) hx
+
+theorem pyset_update_law {s : PySet} (h : Built s) {xs : List Nat} (hx : ∀ x ∈ xs, x < hashModulus) (y : Nat) :
+    y ∈ PySet.toList (PySet.update s xs) ↔ y ∈ PySet.toList s ∨ y ∈ xs := (update_spec xs (pyset_invariant h) hx).2 y
+
+theorem pyset_ofList_law {xs : List Nat} (hx : ∀ x ∈ xs, x < hashModulus) (y : Nat) :
+    y ∈ PySet.toList (PySet.ofList xs) ↔ y ∈ xs := (ofList_spec hx).2 y
+
+theorem pyset_union_law {a b : PySet} (ha : Built a) (hb : Built b) (y : Nat) :
+    y ∈ PySet.toList (PySet.union a b) ↔ y ∈ PySet.toList a ∨ y ∈ PySet.toList b :=
+  (union_spec (pyset_invariant ha) (pyset_invariant hb)).2 y
+
+theorem pyset_merge_law {a b : PySet} (ha : Built a) (hb : Built b) (y : Nat) :
+    y ∈ PySet.toList (PySet.merge a b) ↔ y ∈ PySet.toList a ∨ y ∈ PySet.toList b :=
+  (merge_spec (pyset_invariant ha) (pyset_invariant hb)).2 y
+
+theorem pyset_difference_law {a b : PySet} (ha : Built a) (hb : Built b) (y : Nat) :
+    y ∈ PySet.toList (PySet.difference a b) ↔ y ∈ PySet.toList a ∧ y ∉ PySet.toList b :=
+  (difference_spec (pyset_invariant ha) (pyset_invariant hb)).2 y
+
+theorem pyset_differenceUpdate_law {a b : PySet} (ha : Built a) (hb : Built b) (y : Nat) :
+    y ∈ PySet.toList (PySet.differenceUpdate a b) ↔ y ∈ PySet.toList a ∧ y ∉ PySet.toList b :=
+  (differenceUpdate_spec (pyset_invariant ha) (pyset_invariant hb)).2 y
+
+theorem pyset_copy_law {s : PySet} (h : Built s) (y : Nat) :
+    y ∈ PySet.toList (PySet.copy s) ↔ y ∈ PySet.toList s := (copy_spec (pyset_invariant h)).2 y
+
+/-- `set_table_resize` loses no element, invents none, and drops every dummy -/
+theorem pyset_resize_preserves {s : PySet} (h : Built s) {m : Nat} (hm : s.used ≤ m) :
+    (∀ y, y ∈ PySet.toList (PySet.resize s m) ↔ y ∈ PySet.toList s) ∧
+      (PySet.resize s m).used = s.used ∧ (PySet.resize s m).fill = s.used ∧ m < (PySet.resize s m).table.size := by
+  obtain ⟨_, a2, a3, a4, a5⟩ := resize_spec (pyset_invariant h).wf0 hm
+  exact ⟨a5, a2, a3, a4⟩
+
+/-- the probe loops of `set_lookkey` / `set_add_entry` / `set_insert_clean` are never out of rounds: a lookup in a
+    built set stops inside the table, at the key or - iff the key is absent - at an unused entry -/
+theorem pyset_probe_terminates {s : PySet} (h : Built s) {x : Nat} (hx : x < hashModulus) :
+    ∃ hit, probe (stopLook x) s.table x = some hit ∧ hit.idx < s.table.size ∧
+      ((slotAt s.table hit.idx = .empty ∧ x ∉ PySet.toList s) ∨ slotAt s.table hit.idx = .key x) := by
+  have w := pyset_invariant h
+  obtain ⟨hit, hp, hlt, hc⟩ := look_cases w.table hx w.exists_empty
+  exact ⟨hit, hp, hlt, hc.imp (fun ⟨a, b⟩ => ⟨a, fun hm => b (PySet.mem_toList.1 hm)⟩) id⟩
+
+/-- the one set of the code whose elements are not plain ints: the default `optional_services` is
+    `list(set(UDSIsoServices) - set(mandatory_services + [NegativeResponse]))`.  `UDSIsoServices` is an `IntEnum`, its
+    members hash like their values (`enumHashIsInt`, evaluated on the live enum by the generator), so the order of that
+    list is the PySet order - the list read from the live class (regenerated on every run) is the model's -/
+theorem default_optional_services_order :
+    Gen.C16Tables.enumHashIsInt = true ∧
+    defaultOptionalServices Gen.C16Tables.allServices Gen.C16Tables.defaultMandatoryServices
+      Gen.C16Tables.sidNegativeResponse = Gen.C16Tables.defaultOptionalServices := by
+  decide +kernel
+
+end pyset
+
 /-! ### the executable report the harness evaluates on the implementation's own model -/
 
 /-- soundness of the executable check: when `wfReport` (run by the correspondence harness on `server.services` of the
@@ -197,6 +378,58 @@ example (draws : Nat → Bool) (choice : Nat → Nat) (order : Nat → List Nat)
   intro m
   have h := randomizeCore_wellFormed ⟨[5, 0x60], [2, 3], [0x10, 0x3E], [0x22, 0x27]⟩ (by decide) (by decide)
     draws choice order
+  exact ⟨h.mandatory_sessions 5 (by decide), h.reachable _ (h.mandatory_sessions 0x60 (by decide)),
+    h.returns _ (h.mandatory_sessions 5 (by decide))⟩
+
+/-- non-vacuity of `Built` and the laws: a set that went through collisions, a dummy, the reuse of the dummy and a
+    resize; its iteration order is neither insertion order nor sorted -/
+example :
+    let s := PySet.add (PySet.add (PySet.discard (PySet.ofList [1, 9, 17, 2, 25]) 9) 33) 41
+    Built s ∧ PySet.toList s = [1, 2, 33, 41, 17, 25] ∧ s.fill = 6 ∧ s.used = 6 ∧ s.table.size = 32 := by
+  refine ⟨?_, by decide +kernel, by decide +kernel, by decide +kernel, by decide +kernel⟩
+  exact .add (.add (.discard (.ofList (by decide)) (by decide)) (by decide)) (by decide)
+
+/-- `a - b` on both code paths of `set_difference` (copy + difference_update for a large left operand, filtered
+    re-insertion otherwise) -/
+example :
+    PySet.toList (PySet.difference (PySet.ofList [8, 16, 24, 32, 40, 1, 2, 3]) (PySet.ofList [16])) =
+      [32, 1, 2, 3, 8, 40, 24] ∧
+    (PySet.difference (PySet.ofList [8, 16, 24, 32, 40, 1, 2, 3]) (PySet.ofList [16])).fill = 8 ∧
+    PySet.toList (PySet.difference (PySet.ofList [8, 16, 24]) (PySet.ofList [16, 1])) = [8, 24] := by
+  decide +kernel
+
+/-- a concrete run of `randomize`: session 1 reaches 9, 17 and 2 in the first pass; the second pass walks the set
+    `{9, 17, 2}` in CPython's order 9, 2, 17 (9 and 17 collide in the 8-entry table) - computed, not given -/
+example :
+    pyOrder ⟨[1], [9, 17, 2], [0x10], []⟩ (fun i => decide (0 < i ∧ i < 4)) (fun _ => 0) 1 = [9, 2, 17] ∧
+    (randomize ⟨[1], [9, 17, 2], [0x10], []⟩ (fun i => decide (0 < i ∧ i < 4)) (fun _ => 0)).map (·.1) =
+      [1, 2, 9, 17] := by
+  decide +kernel
+
+/-- `determinism_prefix` at work: this run consumes 16 draws and no choice; any stream with the same first 16 draws
+    (here: one that answers `true` for ever after) gives the same result -/
+example :
+    (randomizePyGen isoTables ⟨[1], [9, 17, 2], [0x10], []⟩ (fun i _ => decide (0 < i ∧ i < 4)) (fun _ => 0)).draws = 16 ∧
+    randomizePyGen isoTables ⟨[1], [9, 17, 2], [0x10], []⟩ (fun i _ => decide ((0 < i ∧ i < 4) ∨ 16 ≤ i)) (fun _ => 7) =
+      randomizePyGen isoTables ⟨[1], [9, 17, 2], [0x10], []⟩ (fun i _ => decide (0 < i ∧ i < 4)) (fun _ => 0) := by
+  have h16 : (randomizePyGen isoTables ⟨[1], [9, 17, 2], [0x10], []⟩ (fun i _ => decide (0 < i ∧ i < 4))
+      (fun _ => 0)).draws = 16 := by decide +kernel
+  have h0 : (randomizePyGen isoTables ⟨[1], [9, 17, 2], [0x10], []⟩ (fun i _ => decide (0 < i ∧ i < 4))
+      (fun _ => 0)).choices = 0 := by decide +kernel
+  refine ⟨h16, determinism_prefix _ _ _ _ _ _ ?_ ?_⟩
+  · intro i hi k
+    rw [h16] at hi
+    have : ¬ 16 ≤ i := by omega
+    simp [this]
+  · intro j hj
+    rw [h0] at hj
+    omega
+
+example (draws : Nat → Bool) (choice : Nat → Nat) :
+    let m := randomize ⟨[5, 0x60], [2, 3], [0x10, 0x3E], [0x22, 0x27]⟩ draws choice
+    Offered m 5 ∧ Reach (DscEdge isoTables m) 1 0x60 ∧ DscEdge isoTables m 5 1 := by
+  intro m
+  have h := randomize_wellFormed ⟨[5, 0x60], [2, 3], [0x10, 0x3E], [0x22, 0x27]⟩ (by decide) (by decide) draws choice
   exact ⟨h.mandatory_sessions 5 (by decide), h.reachable _ (h.mandatory_sessions 0x60 (by decide)),
     h.returns _ (h.mandatory_sessions 5 (by decide))⟩
 
